@@ -146,7 +146,9 @@ impl Setsum {
             let idx = col * SETSUM_BYTES_PER_COLUMN;
             let mut buf = [0u8; 4];
             buf.clone_from_slice(&digest[idx..idx + 4]);
-            *item = u32::from_le_bytes(buf);
+            // Reduce to the canonical representative; add_state and invert_state assume columns
+            // are strictly less than their prime.
+            *item = u32::from_le_bytes(buf) % SETSUM_PRIMES[col];
         }
         Self { state }
     }
